@@ -590,7 +590,16 @@ func genE2E13(r *rand.Rand) e2eCase {
 	st := newGraph(ctx, "?g", ts)
 	var sel, where, tail string
 	var binds []string
-	switch r.Intn(6) {
+	shadow := false
+	switch r.Intn(8) {
+	case 6:
+		// NAME COLLISION: HAVING on an alias that shadows a pattern binding (?o is the subject here)
+		c.Shape, shadow = "shadow", true
+		sel, where, binds = "?o AS ?val, ?s AS ?o", `{?s "v"@[] ?o}`, []string{"?val", "?o"}
+	case 7:
+		c.Shape, shadow = "shadow-grouped", true
+		sel, where, binds = "?s AS ?x, count(?x) AS ?n", `{?s "w"@[] ?x}`, []string{"?x", "?n"}
+		tail = " GROUP BY ?x"
 	case 0:
 		c.Shape = "one-clause"
 		sel, where, binds = "?s, ?o", `{?s "v"@[] ?o}`, []string{"?s", "?o"}
@@ -617,6 +626,9 @@ func genE2E13(r *rand.Rand) e2eCase {
 		"?n": "int", "?d": "int"}
 	if c.Shape == "grouped" {
 		themes["?t"] = "int"
+	}
+	if shadow {
+		themes["?o"], themes["?x"] = "node", "node"
 	}
 	var intended []*lexer.Token
 	if r.Intn(3) == 0 {
